@@ -76,6 +76,12 @@ def gen_path(rng):
         elif q < .55:
             s += many()
         steps.append(s)
+    if rng.random() < .06:
+        # a reserved attribute name in some position of a multi-step path
+        k = rng.randrange(len(steps))
+        steps[k] = steps[k].split("[")[0] + rng.choice(["[@xmlns='u']", "[@xmlns:p='u']", "['u'=@xmlns]", "[@k='1' and @xmlns='u']"])
+        if len(steps) == 1:
+            steps.insert(0, rng.choice(["n", "b"]))
     e = "/".join(steps)
     r = rng.random()
     if r < .12:
@@ -359,14 +365,11 @@ def run(ctx, args):
                 ctx.nontrivial_case((src, expr, tuple(pos), json.dumps(namespaces)))
             if dict(m_eval).get("", "") != dict(m_create).get("", ""):
                 classes.append("empty-namespaces-mapping")
-            if "xmlns" in expr and out == ("rejected", "ValueError") and after != before:
-                classes.append("reserved-attribute-name")
             if "undeclared-prefix" in classes and out == ("rejected", "XPathEvaluationError") and after != before:
                 classes.append("undeclared-prefix-after-creation")
             for b in bad:
                 ctx.fail(b, dict(small, classes=classes, outcome=out),
-                         classify if (b.startswith("an exception (ValueError) left the tree changed")
-                                      and "reserved-attribute-name" in classes) else None)
+                         None)
             ctx.sample(dict(small, outcome=out[0] + (":" + str(out[1]))))
             # ---- the model on the same case
             key = t0.coq()          # inlined: a preamble with one definition per case would be re-read by every file
